@@ -364,6 +364,9 @@ func vfC10Run(t *testing.T, cs vfC10Case, out *vfC10Out, isKnown func(string) bo
 
 		prods := map[string]*vfC10Prod{}
 		cmds := map[uint32]*vfC10Cmd{}
+		// own-join keys of attempts whose subscribe was still in flight when an unsubscribe was issued: the woken
+		// unsubscribe and the subscriber's join publishing then run concurrently (only the Go scheduler orders them)
+		racedJoin := map[string]bool{}
 		// With per-channel batching the moment a push is handed to the connection's queue is the channel writer's
 		// flush, not the producing operation: record it by wrapping the (unexported) flush function.
 		var flushMu sync.Mutex
@@ -596,6 +599,7 @@ func vfC10Run(t *testing.T, cs vfC10Case, out *vfC10Out, isKnown func(string) bo
 					}
 				} else {
 					out.labels = append(out.labels, "unsubscribe_issued_while_subscribe_parked")
+					racedJoin[fmt.Sprintf("join:%d", curTag.Load())] = true
 				}
 				unsubBusy.Store(true)
 				if s.ByServer || cs.Uni {
@@ -767,6 +771,7 @@ func vfC10Run(t *testing.T, cs vfC10Case, out *vfC10Out, isKnown func(string) bo
 			keyA = "C10:offset0-publication-written-before-subscribe-start"
 			keyB = "C10:batched-offset0-publication-flushed-after-unsubscribe"
 			keyC = "C10:reply-without-queue-overtakes-queued-pushes"
+			keyD = "C10:own-join-push-races-unsubscribe-woken-by-subscribe"
 		)
 		classifyAB := func(it vfC10Item) string {
 			pr := prods[it.prodKey]
@@ -809,6 +814,14 @@ func vfC10Run(t *testing.T, cs vfC10Case, out *vfC10Out, isKnown func(string) bo
 				where = fmt.Sprintf("%s (produced while subject phase=%s, writerParked=%v) lies outside a subscription bracket", it.desc,
 					[]string{"idle", "subscribe-parked-after-hub-add", "established", "unsubscribe-parked-after-channels-delete"}[pr.phase], pr.lag)
 			}
+			if racedJoin[it.prodKey] {
+				if isKnown(keyD) {
+					noteKnown(keyD, where+"; frames: "+vfTrunc(actual, 200))
+					skip[idx] = true
+					continue
+				}
+				return "[" + keyD + "] " + where + "; frames: " + actual
+			}
 			if key := classifyAB(it); key != "" {
 				if isKnown(key) {
 					noteKnown(key, where+"; frames: "+vfTrunc(actual, 200))
@@ -829,7 +842,7 @@ func vfC10Run(t *testing.T, cs vfC10Case, out *vfC10Out, isKnown func(string) bo
 						if ri < 0 {
 							break
 						}
-						if classifyAB(rep[ri]) == "" {
+						if classifyAB(rep[ri]) == "" && !racedJoin[rep[ri].prodKey] {
 							clean = false
 							break
 						}
